@@ -67,6 +67,14 @@ func witnesses(ops hx.Counter, withPoll bool) []Case {
 		Fees: []int64{101, 103, 1000, 107, 999}, ClaimEvery: 4}, ops))
 	tag("stake_rewards_default_genesis", runRewards(RewardsParams{Seed: 9101, Snap: 1000, Interval: 17280, CapBtc: "0.25", Commission: "0.1", Compound: true, Delegators: 2, NBlocks: 40,
 		Fees: []int64{101, 103, 1000, 107, 999}, ClaimEvery: 3}, ops))
+	// autocompound re-delegation refused => panic(err) in IncreasePoolRewards (BeginBlock)
+	tag("autocompound_fee_in_unstakeable_denom", runRewards(RewardsParams{Seed: 9102, Snap: 5, Interval: 1, CapBtc: "0.5", Commission: "0.01", Compound: true, Delegators: 1, NBlocks: 12,
+		Fees: []int64{101, 103, 1000, 107, 999}, ClaimEvery: 0, FeeDenom: "xeth"}, ops))
+	tag("autocompound_proposer_pauses_itself", runPauseProposer(PauseParams{Seed: 9103, Interval: 1, How: "pause", Compound: true}, ops))
+	tag("autocompound_proposer_jailed_by_evidence", runPauseProposer(PauseParams{Seed: 9104, Interval: 1, How: "evidence", Compound: true}, ops))
+	tag("proposer_pauses_no_autocompound", runPauseProposer(PauseParams{Seed: 9105, Interval: 1, How: "pause", Compound: false}, ops))
+	tag("autocompound_into_slashed_pool", runSlash(SlashParams{Seed: 9114, Delegate: "1000000ukex", Vote: 1, Slash: "1", After: true, Compound: true}, ops))
+	tag("slash_then_unjail_undelegate_rewards", runSlash(SlashParams{Seed: 9115, Delegate: "1000000ukex,5000ubtc", Vote: 1, Slash: "0.5", After: true, Compound: false}, ops))
 	// evidence -> jail -> automatic SlashValidator proposal -> Apply (no dry run) -> multistaking.SlashStakingPool in EndBlock
 	tag("slash_proposal_keeper_copy_nil", runSlash(SlashParams{Seed: 9111, Delegate: "1000000ukex,5000ubtc", Vote: 1, Slash: "0.5"}, ops))
 	tag("slash_proposal_zero_ukex_burn", runSlash(SlashParams{Seed: 9112, Delegate: "5000ubtc", Vote: 1, Slash: "1"}, ops))
@@ -77,11 +85,11 @@ func witnesses(ops hx.Counter, withPoll bool) []Case {
 	// layer2: MsgCreateDappProposal validates nothing; FinishDappBootstrap runs in EndBlock after the bootstrap period
 	dp := DappParams{Bond: 1_000_000_000_000, TeamReserve: "valid", Premint: "1000", Postmint: "500", Ratio: "0.5", Drip: 86400, Denom: "dtk", Quorum: "0.33"}
 	for i, mut := range []func(*DappParams){func(d *DappParams) {}, func(d *DappParams) { d.Ratio = "-1" }, func(d *DappParams) { d.Drip = 1 << 63 },
-		func(d *DappParams) { d.TeamReserve = "not-an-address" }, func(d *DappParams) { d.Premint, d.Postmint, d.Ratio = "0", "0", "0" }, func(d *DappParams) { d.Bond = 20_000_000_000 }} {
+		func(d *DappParams) { d.TeamReserve = "not-an-address" }, func(d *DappParams) { d.Premint, d.Postmint, d.Ratio = "0", "0", "0" }, func(d *DappParams) { d.Bond = 20_000_000_000 }, func(d *DappParams) { d.Postmint = "-5" }} {
 		d := dp
 		d.Seed = 9130 + uint64(i)
 		mut(&d)
-		tag([]string{"dapp_bootstrap_honest", "dapp_negative_pool_ratio", "dapp_drip_beyond_int64", "dapp_invalid_team_reserve", "dapp_zero_lp_supply", "dapp_bootstrap_fails_refund"}[i], runDapp(d, ops))
+		tag([]string{"dapp_bootstrap_honest", "dapp_negative_pool_ratio", "dapp_drip_beyond_int64", "dapp_invalid_team_reserve", "dapp_zero_lp_supply", "dapp_bootstrap_fails_refund", "dapp_negative_postmint_premint_uncovered"}[i], runDapp(d, ops))
 	}
 	// collectives / basket end-blockers, sends to module addresses
 	tag("collective_honest", runCollective(CollectiveParams{Seed: 9141, Bond: 200_000_000_000, PoolExists: true, Quorum: "0.33", ClaimPeriod: 14400, Donation: "0.5", Dts: []int64{5, 14500, 5, 90000, 14500, 5}, Withdraw: true}, ops))
